@@ -7,6 +7,8 @@ import pulsarbat as pb
 
 from .. import gen, probes, refdft
 
+from ..replay import wl_R
+
 RULE = ("every real_to_complex call is judged per 1-d lane against a direct evaluation of the definition (one-sided spectrum weights, "
         "inverse DFT, mix by exp(-i pi n/2), keep even n) with the independent longdouble DFT matrix (N <= 384) / numpy.fft complex128, "
         "plus the identities (-1)^m Re(out[m]) = x[2m], tone w -> w - N/4, linearity, dtype and shape rules. Workload: N 0..65, 127, 128, "
@@ -225,9 +227,14 @@ def wl_long(ctx, idx, rng):
                           None, {"what": "tone_map"})
 
 
+def install_universal(ctx):
+    R2CMonitor(ctx).install()
+    return probes.detach_all
+
+
 def workloads(ctx):
     q = ctx.tier == "quick"
-    return [("r2c", 1200 if q else 40000, wl_r2c), ("long", 24 if q else 480, wl_long)]
+    return [("R", 1, wl_R), ("r2c", 1200 if q else 40000, wl_r2c), ("long", 24 if q else 480, wl_long)]
 
 
 def setup(ctx):
